@@ -1,5 +1,6 @@
 import Srctools.Wire
 import Srctools.Model.C20
+import Srctools.Model.C20Bvcd
 import Srctools.Gen.Tok
 import Srctools.Gen.C20
 /-! Driver for the C20 models. Byte strings travel as hex strings, text as code-point arrays,
@@ -17,6 +18,12 @@ big integers as decimal strings.
   {"op":"sorted_set","l":[hex…]}        → {"r":[hex…]}
   {"op":"snd_quote","s":[cp…]}          → {"r":[cp…]}
   {"op":"vmt_quote","s":[cp…]}          → {"r":[cp…]}
+  {"op":"bvcd_enc","scene":S,"pool0":[hex…]} → {"r":hex,"pool":[hex…],"strs":[hex…]}   (pool = pool0 + strings in call order)
+  {"op":"bvcd_dec","b":hex,"pool":[hex…]}    → {"r":null|S}
+  S = {"crc","events":[E],"actors":[{"name","active","channels":[{"name","active","events":[E]}]}],"ramp":[[t,Q]],"ip"}
+  E = {"extra":["plain",t]|["gesture",d]|["loop","c"]|["speak",cc,hex,b,b,b],"name","start","stop","p":[hex×3],
+       "ramp","flags","dist","rel","timing","absP","absS":[[hex,Q]],"tn","tw":hex|null,"flex":[F]}
+  F = {"name","active","min","max","mag":[[t,Q,c1,c2]],"dir":null|[…]};  Q = ["num","den"]
 -/
 open Lean C20
 
@@ -92,6 +99,111 @@ def intOfStr (j : Json) : Except String Int := do
   | some i => pure i
   | none => throw s!"bad integer {s}"
 
+namespace BJ
+open C20.Bvcd
+
+def qOf (j : Json) : Except String QVal := do
+  let a ← j.getArr?
+  pure (← intOfStr a[0]!, (← intOfStr a[1]!).toNat)
+
+def qJ (q : QVal) : Json := Json.arr #[Json.str (toString q.1), Json.str (toString q.2)]
+
+def arrOf {α : Type} (f : Json → Except String α) (j : Json) : Except String (List α) := do
+  (← j.getArr?).toList.mapM f
+
+def arrJ {α : Type} (f : α → Json) (l : List α) : Json := Json.arr (l.map f).toArray
+
+def rampOf (j : Json) : Except String RampSample := do
+  let a ← j.getArr?
+  pure { time := ← (a[0]!).getNat?, value := ← qOf a[1]! }
+
+def rampJ (s : RampSample) : Json := Json.arr #[nat s.time, qJ s.value]
+
+def fsOf (j : Json) : Except String FlexSample := do
+  let a ← j.getArr?
+  pure { time := ← (a[0]!).getNat?, value := ← qOf a[1]!, c1 := ← (a[2]!).getNat?, c2 := ← (a[3]!).getNat? }
+
+def fsJ (s : FlexSample) : Json := Json.arr #[nat s.time, qJ s.value, nat s.c1, nat s.c2]
+
+def tagOf (j : Json) : Except String Tag := do
+  let a ← j.getArr?
+  pure { name := ← unhex a[0]!, value := ← qOf a[1]! }
+
+def tagJ (t : Tag) : Json := Json.arr #[hex t.name, qJ t.value]
+
+def optHex (j : Json) : Except String (Option Bytes) :=
+  if j.isNull then pure none else (unhex j).map some
+
+def flexOf (j : Json) : Except String Flex := do
+  let d ← j.getObjVal? "dir"
+  pure { name := ← unhex (← j.getObjVal? "name"), active := ← j.getObjValAs? Bool "active",
+         min := ← j.getObjValAs? Nat "min", max := ← j.getObjValAs? Nat "max",
+         mag := ← arrOf fsOf (← j.getObjVal? "mag"),
+         dir := ← (if d.isNull then pure none else (arrOf fsOf d).map some) }
+
+def flexJ (f : Flex) : Json :=
+  Json.mkObj [("name", hex f.name), ("active", Json.bool f.active), ("min", nat f.min), ("max", nat f.max),
+    ("mag", arrJ fsJ f.mag), ("dir", match f.dir with | none => Json.null | some d => arrJ fsJ d)]
+
+def extraOf (j : Json) : Except String Extra := do
+  let a ← j.getArr?
+  let k ← (a[0]!).getStr?
+  match k with
+  | "plain" => pure (.plain (← (a[1]!).getNat?))
+  | "gesture" => pure (.gesture (← (a[1]!).getNat?))
+  | "loop" => pure (.loop (← intOfStr a[1]!))
+  | "speak" => pure (.speak (← (a[1]!).getNat?) (← unhex a[2]!) (← (a[3]!).getBool?) (← (a[4]!).getBool?)
+      (← (a[5]!).getBool?))
+  | _ => throw "bad extra"
+
+def extraJ : Extra → Json
+  | .plain t => Json.arr #[Json.str "plain", nat t]
+  | .gesture d => Json.arr #[Json.str "gesture", nat d]
+  | .loop c => Json.arr #[Json.str "loop", Json.str (toString c)]
+  | .speak cc tok a b c => Json.arr #[Json.str "speak", nat cc, hex tok, Json.bool a, Json.bool b, Json.bool c]
+
+def eventOf (j : Json) : Except String Event := do
+  let p ← (← j.getObjVal? "p").getArr?
+  pure { extra := ← extraOf (← j.getObjVal? "extra"), name := ← unhex (← j.getObjVal? "name"),
+         start := ← j.getObjValAs? Nat "start", stop := ← j.getObjValAs? Nat "stop",
+         p1 := ← unhex p[0]!, p2 := ← unhex p[1]!, p3 := ← unhex p[2]!,
+         ramp := ← arrOf rampOf (← j.getObjVal? "ramp"), flags := ← j.getObjValAs? Nat "flags",
+         dist := ← j.getObjValAs? Nat "dist", rel := ← arrOf tagOf (← j.getObjVal? "rel"),
+         timing := ← arrOf tagOf (← j.getObjVal? "timing"), absP := ← arrOf tagOf (← j.getObjVal? "absP"),
+         absS := ← arrOf tagOf (← j.getObjVal? "absS"), tagName := ← optHex (← j.getObjVal? "tn"),
+         tagWav := ← optHex (← j.getObjVal? "tw"), flex := ← arrOf flexOf (← j.getObjVal? "flex") }
+
+def eventJ (e : Event) : Json :=
+  Json.mkObj [("extra", extraJ e.extra), ("name", hex e.name), ("start", nat e.start), ("stop", nat e.stop),
+    ("p", Json.arr #[hex e.p1, hex e.p2, hex e.p3]), ("ramp", arrJ rampJ e.ramp), ("flags", nat e.flags),
+    ("dist", nat e.dist), ("rel", arrJ tagJ e.rel), ("timing", arrJ tagJ e.timing), ("absP", arrJ tagJ e.absP),
+    ("absS", arrJ tagJ e.absS), ("tn", hexOpt e.tagName), ("tw", hexOpt e.tagWav), ("flex", arrJ flexJ e.flex)]
+
+def channelOf (j : Json) : Except String Channel := do
+  pure { name := ← unhex (← j.getObjVal? "name"), active := ← j.getObjValAs? Bool "active",
+         events := ← arrOf eventOf (← j.getObjVal? "events") }
+
+def channelJ (c : Channel) : Json :=
+  Json.mkObj [("name", hex c.name), ("active", Json.bool c.active), ("events", arrJ eventJ c.events)]
+
+def actorOf (j : Json) : Except String Actor := do
+  pure { name := ← unhex (← j.getObjVal? "name"), active := ← j.getObjValAs? Bool "active",
+         channels := ← arrOf channelOf (← j.getObjVal? "channels") }
+
+def actorJ (a : Actor) : Json :=
+  Json.mkObj [("name", hex a.name), ("active", Json.bool a.active), ("channels", arrJ channelJ a.channels)]
+
+def sceneOf (j : Json) : Except String Scene := do
+  pure { crc := ← j.getObjValAs? Nat "crc", events := ← arrOf eventOf (← j.getObjVal? "events"),
+         actors := ← arrOf actorOf (← j.getObjVal? "actors"), ramp := ← arrOf rampOf (← j.getObjVal? "ramp"),
+         ignorePhonemes := ← j.getObjValAs? Bool "ip" }
+
+def sceneJ (s : Scene) : Json :=
+  Json.mkObj [("crc", nat s.crc), ("events", arrJ eventJ s.events), ("actors", arrJ actorJ s.actors),
+    ("ramp", arrJ rampJ s.ramp), ("ip", Json.bool s.ignorePhonemes)]
+
+end BJ
+
 def handle (j : Json) : Except String Json := do
   let op ← j.getObjValAs? String "op"
   let r (x : Json) := Json.mkObj [("r", x)]
@@ -133,6 +245,18 @@ def handle (j : Json) : Except String Json := do
   | "vmt_quote" =>
     pure (r (Wire.codesOfStr (vmtQuote Gen.Tok.tables Gen.C20.vmtLead
       (← Wire.strOfCodes (← j.getObjVal? "s")))))
+  | "bvcd_enc" =>
+    let sc ← BJ.sceneOf (← j.getObjVal? "scene")
+    let pool0 ← hexList (← j.getObjVal? "pool0")
+    let strs := C20.Bvcd.sceneStrs sc
+    let pool := addAll pool0 strs
+    pure (Json.mkObj [("r", hex (C20.Bvcd.encScene (poolIndex pool) sc)),
+      ("pool", Json.arr (pool.map hex).toArray), ("strs", Json.arr (strs.map hex).toArray)])
+  | "bvcd_dec" =>
+    let pool ← hexList (← j.getObjVal? "pool")
+    pure (r (match C20.Bvcd.decodeScene pool (← unhex (← j.getObjVal? "b")) with
+      | some sc => BJ.sceneJ sc
+      | none => Json.null))
   | _ => throw s!"unknown op {op}"
 
 def main : IO Unit := Wire.main handle
